@@ -620,6 +620,7 @@ def _verify_body(eng, contract, target, mod, cname, node, res, seed, timeout_ms,
                             'time_s': 0, 'paths': len(item['items']), 'tags': list(item['tags'])})
                 continue
             statuses = []
+            cross = []
             backend = set()
             model_txt = None
             for idx_, (hyps, goal) in enumerate(item['items']):
@@ -640,7 +641,11 @@ def _verify_body(eng, contract, target, mod, cname, node, res, seed, timeout_ms,
                         if r['status'] == 'proved':
                             break
                     if r is None or r['status'] != 'proved':
-                        r = smt.prove(hyps, goal, timeout_ms=timeout_ms, seed=seed, both=both, quick_only=(failed >= 2 or name in KNOWN_OPEN))
+                        import zlib as _zlib
+                        both_here = both and idx_ == 0 and _zlib.crc32(name.encode()) % 6 == 0     # thorough tier: a fixed sample is re-proved by cvc5
+                        r = smt.prove(hyps, goal, timeout_ms=timeout_ms, seed=seed, both=both_here, quick_only=(failed >= 2 or name in KNOWN_OPEN))
+                        if 'cvc5' in r:
+                            cross.append(r['cvc5'])
                         if r['status'] == 'undecided' and failed < 2 and name not in KNOWN_OPEN:
                             # no answer is not a refutation: one patient retry, so that a busy machine does not flip the verdict
                             r = smt.prove(hyps, goal, timeout_ms=timeout_ms, seed=seed + 7, quick_only=True, patient=True)
@@ -674,6 +679,8 @@ def _verify_body(eng, contract, target, mod, cname, node, res, seed, timeout_ms,
                 failed += 1
             ob = {'name': name, 'status': st, 'kind': item['kind'], 'backend': '+'.join(sorted(backend)) or 'syntactic',
                   'time_s': round(time.time() - t1, 4), 'paths': len(item['items']), 'tags': list(item['tags'])}
+            if cross:
+                ob['cvc5_cross_check'] = list(cross)
             if item.get('dead'):
                 ob['status'] = 'dead-case'      # no path of the body realises this case of the contract
                 ob['paths'] = 0
